@@ -441,3 +441,37 @@ def ob_names(ctx: Ctx) -> Outcome:
     if uniq:
         return Outcome.refuted("real loaders with audit hook", uniq[:20], **extra)
     return Outcome.ok("real loaders with audit hook", **extra)
+
+
+def probe_schema_argument():
+    """the four tools with path-like schema arguments: nothing outside the schema directories may be opened"""
+    import pathlib
+
+    from octave_mcp.mcp.compile_grammar import CompileGrammarTool
+    from octave_mcp.mcp.eject import EjectTool
+    from octave_mcp.mcp.validate import ValidateTool
+    from octave_mcp.mcp.write import WriteTool
+    from octave_mcp.schemas import loader
+
+    _install_hook()
+
+    def run(root):
+        sb = os.path.join(root, "sandbox")
+        os.chdir(sb)
+        allowed = [os.path.realpath(str(p)) for p in loader.get_schema_search_paths()] + [os.path.realpath(str(pathlib.Path(loader.__file__).parent / "builtin"))]
+        bad = []
+        for schema in ("../outside/secret", "../outside/secret.oct.md", os.path.join(root, "outside", "secret.oct.md"), "dirlink/secret", "filelink", "ok", "sub/ok", "./ok.oct.md"):
+            for label, mk in (("validate", lambda: ValidateTool().execute(content=DOC, schema=schema)), ("eject", lambda: EjectTool().execute(content=DOC, schema=schema)), ("compile_grammar", lambda: CompileGrammarTool().execute(schema=schema)), ("write", lambda: WriteTool().execute(target_path=os.path.join(sb, "w.oct.md"), content=DOC, schema=schema, corrections_only=True))):
+                del _EVENTS[:]
+                try:
+                    asyncio.run(mk())
+                except Exception:  # noqa: BLE001
+                    pass
+                for p, _ in _EVENTS:
+                    if isinstance(p, str) and p.endswith((".oct.md", ".md", ".txt")):
+                        rp = os.path.realpath(p)
+                        if rp.startswith(root) and not rp.endswith("w.oct.md"):
+                            bad.append(f"octave_{label}(schema={schema!r}) opened {os.path.relpath(rp, root)}")
+        return bool(bad), "; ".join(bad[:2]) or "probe: path-like schema arguments open nothing in the tree"
+
+    return _with_tree(run)
